@@ -59,7 +59,10 @@ def main():
     ap.add_argument('--keep', action='store_true')
     ap.add_argument('--tier', default='quick')
     a = ap.parse_args()
-    ms = json.load(open(os.path.join(ROOT, 'selftest', 'mutants.json')))
+    ms = []
+    import glob
+    for f in sorted(glob.glob(os.path.join(ROOT, 'selftest', 'mutants.d', '*.json'))):
+        ms.extend(json.load(open(f)))
     ms = [m for m in ms if (not a.prop or m['property'] == a.prop.upper()) and (not a.id or a.id in m['id'])]
     with ThreadPoolExecutor(a.jobs) as ex:
         res = list(ex.map(lambda m: run_one(m, a.keep, a.tier), ms))
